@@ -757,6 +757,37 @@ class C17(core.Check):
         if fn is None or gz is None:
             raise RuntimeError('compress/gzip not found')
 
+        helpers = {n.name: n for n in mod.body if isinstance(n, ast.FunctionDef) and len(n.args.args) == 1
+                   and not n.args.defaults and not n.decorator_list}
+
+        def call_helper(h, level):
+            """a module-level function of the level alone whose body is a chain of `if <param> == CONST: return b'..'`
+            ending in `return b'..'`: the bytes it returns for this level"""
+            param = h.args.args[0].arg
+
+            def ev(stmts):
+                for s in stmts:
+                    if isinstance(s, ast.Expr) and isinstance(s.value, ast.Constant):
+                        continue
+                    if isinstance(s, ast.Return) and isinstance(s.value, ast.Constant) and isinstance(s.value.value, bytes):
+                        return s.value.value
+                    if isinstance(s, ast.If):
+                        t = s.test
+                        if not (isinstance(t, ast.Compare) and isinstance(t.left, ast.Name) and t.left.id == param
+                                and len(t.ops) == 1 and isinstance(t.ops[0], ast.Eq)
+                                and isinstance(t.comparators[0], ast.Name) and t.comparators[0].id in consts):
+                            raise RuntimeError('unsupported test in %s: %s' % (h.name, ast.unparse(t)))
+                        r = ev(s.body if level == consts[t.comparators[0].id] else s.orelse)
+                        if r is not None:
+                            return r
+                        continue
+                    raise RuntimeError('unsupported statement in %s: %s' % (h.name, ast.unparse(s)))
+                return None
+            r = ev(h.body)
+            if r is None:
+                raise RuntimeError('%s returns nothing for level %d' % (h.name, level))
+            return r
+
         def header_for(level):
             """interpret the straight-line prefix of compress() up to the first assignment"""
             out = []
@@ -774,6 +805,10 @@ class C17(core.Check):
                                 and ast.unparse(v.args[0]) == "'<L'"
                                 and ast.unparse(v.args[1]) == "int(time.time()) & int('FFFFFFFF', 16)"):
                             out.append('MTIME')
+                            continue
+                        if (isinstance(v, ast.Call) and isinstance(v.func, ast.Name) and v.func.id in helpers
+                                and not v.keywords and [ast.unparse(a) for a in v.args] == ['compress_level']):
+                            out.append(list(call_helper(helpers[v.func.id], level)))     # an extracted octet chooser
                             continue
                         raise RuntimeError('unsupported yield: ' + ast.unparse(s))
                     if isinstance(s, ast.If):
